@@ -491,6 +491,8 @@ func runC12(r *Run) {
 		r.requireSucc(P+".distinct.create", "if this fails, a create whose update and recovery commitments are equal is accepted", f, ctx, "batch=false",
 			"cmp(?d.UpdateCommitment != ?s.RecoveryCommitment)", "cmp(?d == <result>.Delta)", "cmp(?s == <result>.SuffixData)")
 	}
+	// --- client mirrors of the two intake rules
+	r.checkClientReuse(P)
 	// --- skip
 	if f := r.fn(P, pkgProcessor, "OperationProcessor.applyFirstValidOperation"); f != nil {
 		ff := r.E.Facts(f, core.Ctx{})
@@ -688,5 +690,20 @@ func (r *Run) checkVersionBlindPaths(P string) {
 			core.FuncName(rd), r.P.Pos(c.Pos()),
 			"the fallback is selected by the text \"not found\" in the processor's error, and the unknown-version errors echo the requested version: a long-form DID resolved at versionId \"x not found\" (or an unparsable versionTime containing that text) is answered with the initial-state document instead of an error",
 			"dominated by both emptiness tests", "initial-state resolution reachable with a version requested")
+	}
+}
+
+// checkClientReuse: the client builders succeed only when the next commitment differs from the commitment of the very
+// key the request reveals, computed with the request's own multihash code (shared by C12 and C11: a request built in
+// violation of it is rejected at intake).
+func (r *Run) checkClientReuse(P string) {
+	why := "if this fails, the client library hands out a request that re-commits to the key it reveals (rejected at intake, or — built for another code — a chain that loops)"
+	if f := r.fn(P, pkgClient, "NewUpdateRequest"); f != nil {
+		r.requireSucc(P+".reuse.client.update", why, f, core.Ctx{}, "",
+			"cmp($0.UpdateCommitment != commitment.GetCommitment($0.UpdateKey, $0.MultihashCode))")
+	}
+	if f := r.fn(P, pkgClient, "NewRecoverRequest"); f != nil {
+		r.requireSucc(P+".reuse.client.recover", why, f, core.Ctx{}, "",
+			"cmp($0.RecoveryCommitment != commitment.GetCommitment($0.RecoveryKey, $0.MultihashCode))")
 	}
 }
